@@ -51,6 +51,11 @@ def run(ctx):
     if ctx.thorough:
         menu += [("k2vec", [L], 1), ("k3a", [L], 1), ("k2eps", [L], 1), ("k2big", [2, L], 1)]
     ps = ml.e2_plans(ctx, menu, MONS)
+    # the loop's control skeleton (scripted relabel outputs, see C09): final states whose labels differ from the
+    # labels last fitted, incl. an emptied or singleton cluster, for every label sequence up to length 3
+    from checks.c09 import work_skeleton, SK_ALPHA
+    for r in ctx.pmap(work_skeleton, [(limit, [f], ("first",), ['C13']) for limit in (1, 2, 3) for f in sorted(SK_ALPHA)]):
+        ctx.take(r)
     ml.explore(ctx, ps)
     ml.e2_describe(ctx, ps)
     ctx.cov["states"] += tot_states
@@ -61,9 +66,18 @@ def run(ctx):
         f"{[list(o) for o in opseq.ops_alphabet()]}, depth {depth} (world w3: {depth - 1}), deduplicated on "
         "(content digest of newest state, aliasing pattern with older live states); an operation that raises is "
         "'disabled there' (its input must still be untouched). (b) " + ctx.cov["rule"])
+    ctx.cov["rule"] += (" Plus control-skeleton runs: the main loop with the relabel phase's output scripted, every label "
+                        "sequence over 5 labellings up to length 3 (final labels that differ from the labels last fitted, "
+                        "emptied and singleton clusters).")
 
 
 def replay(ctx, case):
+    if case.get("kind") == "skeleton":
+        from vlib import lib
+        lib.load("nojit")
+        from checks.c09 import work_skeleton
+        ctx.take(work_skeleton((case["limit"], [case["sequence"][0]], (case["draw"],), case.get("monitors", ['C13']))))
+        return
     from vlib import lib
     lib.load("nojit")
     if "history" in case:
